@@ -686,34 +686,31 @@ Proof.
 Qed.
 
 Lemma order_check_step : forall label known keys l deps,
-  order_check label known keys = Done (SStep l deps) ->
+  order_check label known keys = SStep l deps ->
   l = label /\ deps = somes (needed_steps keys) /\
   forall n, In n (needed_steps keys) -> opt_mem n known = true.
 Proof.
   intros label known keys l deps H. unfold order_check in H.
-  destruct (filter _ (needed_steps keys)) as [|a r] eqn:E.
-  - inversion H; subst. repeat split; try reflexivity.
-    intros n Hn. pose proof (filter_nil _ _ _ E n Hn) as Hf. now apply negb_false_iff in Hf.
-  - destruct (existsb is_none (a :: r)); discriminate H.
+  destruct (filter _ (needed_steps keys)) as [|a r] eqn:E; [|discriminate H].
+  inversion H; subst. repeat split; try reflexivity.
+  intros n Hn. pose proof (filter_nil _ _ _ E n Hn) as Hf. now apply negb_false_iff in Hf.
 Qed.
 
 Lemma order_check_err : forall label known keys l c,
-  order_check label known keys = Done (SErr l c) -> c = CPermFail.
+  order_check label known keys = SErr l c -> c = CPermFail.
 Proof.
   intros label known keys l c H. unfold order_check in H.
-  destruct (filter _ (needed_steps keys)) as [|a r]; [discriminate H|].
-  destruct (existsb is_none (a :: r)); [discriminate H|]. now inversion H.
+  destruct (filter _ (needed_steps keys)) as [|a r]; [discriminate H|]. now inversion H.
 Qed.
 
-Lemma order_check_raises : forall label known keys e,
-  order_check label known keys = Raised e -> e = ETypeError /\ In None (needed_steps keys).
+(* a needed name that is not an earlier label - or no name at all - is rejected *)
+Lemma order_check_rejects : forall label known keys n,
+  In n (needed_steps keys) -> opt_mem n known = false ->
+  order_check label known keys = SErr label CPermFail.
 Proof.
-  intros label known keys e H. unfold order_check in H.
-  destruct (filter _ (needed_steps keys)) as [|a r] eqn:E; [discriminate H|].
-  destruct (existsb is_none (a :: r)) eqn:Ex; [|discriminate H].
-  inversion H; subst. split; [reflexivity|].
-  apply existsb_exists in Ex. destruct Ex as ([s|] & Hin & Hn); [discriminate Hn|].
-  rewrite <- E in Hin. apply filter_In in Hin. tauto.
+  intros label known keys n Hin Hm. unfold order_check.
+  destruct (filter _ (needed_steps keys)) as [|a r] eqn:E; [|reflexivity].
+  pose proof (filter_nil _ _ _ E n Hin) as Hf. cbv beta in Hf. rewrite Hm in Hf. discriminate Hf.
 Qed.
 
 Lemma field_keys_some : forall f k t, field_keys f = Done (Some k) -> In t (field_trees f) ->
@@ -808,7 +805,7 @@ Proof.
       else
       bind (load_step_fields st k0) (fun '(ok, keys) =>
       if negb ok then Done (rs, SErr (st_label st) CPermFail, needed_parent keys)
-      else bind (order_check (st_label st) known keys) (fun o => Done (rs, o, needed_parent keys))))
+      else Done (rs, order_check (st_label st) known keys, needed_parent keys)))
       = Done (r, SStep l deps, p)).
   { destruct (st_ref st), (st_switch st); try exact H. destruct Hcase; discriminate. }
   clear H. rename H' into H.
@@ -818,8 +815,7 @@ Proof.
   destruct nologic; [discriminate H|].
   destruct (load_step_fields st k0) as [[ok keys]|e] eqn:EF; cbn [bind] in H; [|discriminate H].
   destruct ok; cbn [negb] in H; [|discriminate H].
-  destruct (order_check (st_label st) known keys) as [o|e] eqn:EO; cbn [bind] in H; [|discriminate H].
-  inversion H; subst r o p; clear H.
+  inversion H as [[Hr EO Hp]]; subst r p; clear H.
   apply order_check_step in EO. destruct EO as (-> & -> & Hmem).
   split; [reflexivity|]. exists keys. split; [|split; [exact Hmem|reflexivity]].
   apply load_step_fields_ok in EF. destruct EF as (Hk0 & Hfields).
@@ -842,7 +838,7 @@ Proof.
       else
       bind (load_step_fields st k0) (fun '(ok, keys) =>
       if negb ok then Done (rs, SErr (st_label st) CPermFail, needed_parent keys)
-      else bind (order_check (st_label st) known keys) (fun o => Done (rs, o, needed_parent keys))))
+      else Done (rs, order_check (st_label st) known keys, needed_parent keys)))
       = Done (r, SErr l c, p)).
   { destruct (st_ref st), (st_switch st); try (right; exact H). left. now inversion H. }
   clear H. destruct H' as [->|H]; [discriminate|].
@@ -852,8 +848,7 @@ Proof.
   destruct nologic; [inversion H; discriminate|].
   destruct (load_step_fields st k0) as [[ok keys]|e] eqn:EF; cbn [bind] in H; [|discriminate H].
   destruct ok; cbn [negb] in H; [|inversion H; discriminate].
-  destruct (order_check (st_label st) known keys) as [o|e] eqn:EO; cbn [bind] in H; [|discriminate H].
-  inversion H; subst. apply order_check_err in EO. subst. discriminate.
+  inversion H as [[Hr EO Hp]]. apply order_check_err in EO. subst. discriminate.
 Qed.
 
 Lemma existsb_eqb_In : forall s l, existsb (String.eqb s) l = true <-> In s l.
@@ -1105,7 +1100,7 @@ Proof.
       else
       bind (load_step_fields st k0) (fun '(ok, keys) =>
       if negb ok then Done (rs, SErr (st_label st) CPermFail, needed_parent keys)
-      else bind (order_check (st_label st) known keys) (fun o => Done (rs, o, needed_parent keys))))
+      else Done (rs, order_check (st_label st) known keys, needed_parent keys)))
       = Done (r1, o, p)).
   { destruct (st_ref st), (st_switch st); try exact H. destruct Hcase; discriminate. }
   clear H. rename H' into H.
@@ -1115,9 +1110,7 @@ Proof.
   destruct (negb (oc_is_ok lc)); [now inversion H|].
   destruct nologic; [now inversion H|].
   destruct (load_step_fields st k0) as [[ok keys]|e]; cbn [bind] in H; [|discriminate H].
-  destruct (negb ok); [now inversion H|].
-  destruct (order_check (st_label st) known keys) as [o'|e]; cbn [bind] in H; [|discriminate H].
-  now inversion H.
+  destruct (negb ok); now inversion H.
 Qed.
 
 Lemma load_step_names : forall st known r1 o p r,
@@ -1238,106 +1231,64 @@ Qed.
 Lemma trees_wf_app : forall a b, trees_wf (a ++ b) -> trees_wf a /\ trees_wf b.
 Proof. intros a b H. unfold trees_wf in *. now apply Forall_app in H. Qed.
 
-Lemma load_step_raises : forall st known e,
-  trees_wf (step_trees st) -> load_step st known = Raised e -> e = ETypeError.
+Lemma load_step_total : forall st known,
+  trees_wf (step_trees st) -> exists x, load_step st known = Done x.
 Proof.
-  intros st known e Hw H. unfold step_trees in Hw.
+  intros st known Hw. unfold step_trees in Hw.
   apply trees_wf_app in Hw. destruct Hw as [Hsw Hw].
   apply trees_wf_app in Hw. destruct Hw as [H1 Hw].
   apply trees_wf_app in Hw. destruct Hw as [H2 Hw].
   apply trees_wf_app in Hw. destruct Hw as [H3 H4].
-  unfold load_step in H.
+  unfold load_step.
   assert (HL : exists x, load_step_logic st = Done x).
   { unfold load_step_logic. destruct (st_ref st) as [r|].
     - destruct (load_logic r). eexists; reflexivity.
     - destruct (st_switch st) as [sw|]; [|eexists; reflexivity].
       destruct (load_logic_switch_total sw Hsw) as ([[rs c] keys] & ->). cbn. eexists; reflexivity. }
   destruct HL as ([[[rs lc] nologic] k0] & HL).
-  assert (H' : (if String.eqb (st_label st) "<missing label>" then Done (rs, SErr "missing" CPermFail, needed_parent k0)
-      else if negb (oc_is_ok lc) then Done (rs, SErr (st_label st) lc, needed_parent k0)
-      else if nologic then Done (rs, SErr (st_label st) CPermFail, needed_parent k0)
-      else
-      bind (load_step_fields st k0) (fun '(ok, keys) =>
-      if negb ok then Done (rs, SErr (st_label st) CPermFail, needed_parent keys)
-      else bind (order_check (st_label st) known keys) (fun o => Done (rs, o, needed_parent keys))))
-      = Raised e).
-  { rewrite HL in H. cbn [bind] in H. destruct (st_ref st), (st_switch st); try exact H. discriminate H. }
-  clear H. rename H' into H.
-  destruct (String.eqb (st_label st) "<missing label>"); [discriminate H|].
-  destruct (negb (oc_is_ok lc)); [discriminate H|].
-  destruct nologic; [discriminate H|].
   assert (HF : exists x, load_step_fields st k0 = Done x).
   { unfold load_step_fields.
     destruct (field_keys_total _ H1) as ([k1|] & ->); cbn [bind]; [|eexists; reflexivity].
     destruct (fe_keys_total _ H2) as ([k2|] & ->); cbn [bind]; [|eexists; reflexivity].
     destruct (field_keys_total _ H3) as ([k3|] & ->); cbn [bind]; [|eexists; reflexivity].
     destruct (field_keys_total _ H4) as ([k4|] & ->); cbn [bind]; eexists; reflexivity. }
-  destruct HF as ([ok keys] & HF). rewrite HF in H. cbn [bind] in H.
-  destruct (negb ok); [discriminate H|].
-  destruct (order_check (st_label st) known keys) as [o|e'] eqn:EO; cbn [bind] in H; [discriminate H|].
-  inversion H; subst. now apply order_check_raises in EO.
+  destruct HF as ([ok keys] & HF).
+  assert (Hgoal : exists x,
+     bind (load_step_logic st) (fun '(rs, lc, nologic, k0) =>
+      if String.eqb (st_label st) "<missing label>" then Done (rs, SErr "missing" CPermFail, needed_parent k0)
+      else if negb (oc_is_ok lc) then Done (rs, SErr (st_label st) lc, needed_parent k0)
+      else if nologic then Done (rs, SErr (st_label st) CPermFail, needed_parent k0)
+      else
+      bind (load_step_fields st k0) (fun '(ok, keys) =>
+      if negb ok then Done (rs, SErr (st_label st) CPermFail, needed_parent keys)
+      else Done (rs, order_check (st_label st) known keys, needed_parent keys))) = Done x).
+  { rewrite HL. cbn [bind].
+    destruct (String.eqb (st_label st) "<missing label>"); [eexists; reflexivity|].
+    destruct (negb (oc_is_ok lc)); [eexists; reflexivity|].
+    destruct nologic; [eexists; reflexivity|].
+    rewrite HF. cbn [bind]. destruct (negb ok); eexists; reflexivity. }
+  destruct (st_ref st), (st_switch st); try exact Hgoal. eexists; reflexivity.
 Qed.
 
-Lemma steps_loop_raises : forall steps known e,
+Lemma steps_loop_total : forall steps known,
   Forall (fun st => trees_wf (step_trees st)) steps ->
-  steps_loop steps known = Raised e -> e = ETypeError.
+  exists x, steps_loop steps known = Done x.
 Proof.
-  induction steps as [|st rest IH]; intros known e Hw H; [discriminate H|].
-  inversion Hw as [|? ? Hst Hrest]; subst. cbn [steps_loop] in H.
+  induction steps as [|st rest IH]; intros known Hw; [eexists; reflexivity|].
+  inversion Hw as [|? ? Hst Hrest]; subst. cbn [steps_loop].
   destruct (existsb (String.eqb (st_label st)) known).
-  - destruct (steps_loop rest known) as [[[rs outs] pp]|e'] eqn:ER; cbn [bind] in H; [discriminate H|].
-    inversion H; subst. eapply IH; eassumption.
-  - destruct (load_step st known) as [[[r1 o1] p1]|e'] eqn:EL; cbn [bind] in H.
-    + destruct (steps_loop rest (st_label st :: known)) as [[[rs outs] pp]|e''] eqn:ER; cbn [bind] in H; [discriminate H|].
-      inversion H; subst. eapply IH; eassumption.
-    + inversion H; subst. eapply load_step_raises; eassumption.
+  - destruct (IH known Hrest) as ([[rs outs] pp] & ->). cbn. eexists; reflexivity.
+  - destruct (load_step_total st known Hst) as ([[r1 o1] p1] & ->). cbn [bind].
+    destruct (IH (st_label st :: known) Hrest) as ([[rs outs] pp] & ->). cbn. eexists; reflexivity.
 Qed.
 
-(* with expressions from the CEL grammar, the only exception prepare_workflow's step loading
-   can raise is the TypeError of the order check's message *)
-Theorem prepare_workflow_raises_only : forall steps e,
-  Forall (fun st => trees_wf (step_trees st)) steps ->
-  prepare_workflow steps = Raised e -> e = ETypeError.
+(* C20-style totality of the modelled part of prepare_workflow: with expressions from the
+   CEL grammar it always returns a Workflow (errors live in steps_ready) *)
+Theorem prepare_workflow_total : forall steps,
+  Forall (fun st => trees_wf (step_trees st)) steps -> exists w, prepare_workflow steps = Done w.
 Proof.
-  intros steps e Hw H. unfold prepare_workflow in H. destruct steps as [|s0 rest]; [discriminate H|].
-  destruct (steps_loop (s0 :: rest) []) as [[[rs outs] pp]|e'] eqn:EL; cbn [bind] in H; [discriminate H|].
-  inversion H; subst. eapply steps_loop_raises; eassumption.
-Qed.
-
-(* ... and that one does happen (genuine defect of the unchanged code): a key that
-   matches STEPS_NAME_PATTERN without a name puts None into needed_steps, and
-   ', '.join(...) of the error message raises.  Witnesses: `stepsX.foo` and `steps['.a']`
-   as the inputs expression of the only step. *)
-Definition tree_stepsX_foo : node :=
-  ch 0 7 (N "member_dot" [N "member" [N "primary" [N "ident" [Tok "IDENT" "stepsX"]]]; Tok "IDENT" "foo"]).
-Definition tree_steps_dot_a : node :=
-  ch 0 7 (N "member_index" [steps_member; lit_expr "STRING_LIT" "'.a'"]).
-
-Definition one_step (t : node) : list step_spec :=
-  [{| st_label := "aaa";
-      st_ref := Some {| rf_kind := "ValueFunction"; rf_name := "f"; rf_cache := CHealthy |};
-      st_switch := None; st_skip_if := FNone; st_for_each := FENone;
-      st_inputs := FExpr t; st_state := FNone |}].
-
-Theorem prepare_workflow_total_refuted :
-  exists steps, Forall (fun st => Forall (fun t => cel_expr_wf t = true) (step_trees st)) steps /\
-                prepare_workflow steps = Raised ETypeError.
-Proof.
-  exists (one_step tree_stepsX_foo). split; [|vm_compute; reflexivity].
-  repeat constructor.
-Qed.
-
-Theorem unknown_label_reported_refuted :
-  exists steps st t, steps = [st] /\ In t (step_trees st) /\ cel_expr_wf t = true /\
-    occurs_steps_ref ".a" t /\ prepare_workflow steps = Raised ETypeError.
-Proof.
-  eexists (one_step tree_steps_dot_a), _, tree_steps_dot_a.
-  split; [reflexivity|]. split; [cbn; now left|]. split; [vm_compute; reflexivity|].
-  split; [|vm_compute; reflexivity].
-  unfold tree_steps_dot_a, ch. cbn [levels skipn firstn Nat.sub chain fold_right].
-  do 8 (eapply occ_child; [now left|]).
-  apply occ_here. apply (dr_index ".a" "'"%char (quote1 "'"%char) "STRING_LIT");
-    [now left|left; split; reflexivity|reflexivity|reflexivity].
+  intros steps Hw. unfold prepare_workflow. destruct steps as [|s0 rest]; [eexists; reflexivity|].
+  destruct (steps_loop_total (s0 :: rest) [] Hw) as ([[rs outs] pp] & ->). cbn. eexists; reflexivity.
 Qed.
 
 (* ---- exactly which names the regular expression gives back ---- *)
@@ -1392,4 +1343,63 @@ Proof.
   intros name H. split; [now apply label_ok_name_ok|]. split; [constructor|].
   intros q Hq. destruct (label_ok_no_edge_quote name q Hq H) as (Hf & Hl).
   split; apply (dr_index name q); try assumption; [left|right]; split; reflexivity.
+Qed.
+
+(* ---- after repair 2f140bc: nameless references are reported, nothing raises ---- *)
+
+(* a key that matches STEPS_NAME_PATTERN without a name (stepsX.foo, steps['.a'], steps['[a'])
+   makes the Workflow not ready *)
+Theorem nameless_ref_rejected : forall steps w pre st post t S k,
+  prepare_workflow steps = Done w -> steps = pre ++ st :: post ->
+  In t (step_trees st) -> extract t = Done S -> In k S -> steps_name k = Some None ->
+  pw_ready w <> COk.
+Proof.
+  intros steps w pre st post t S k H -> Ht HS Hk Hn Hr.
+  destruct (prepare_workflow_inv _ _ H Hr) as (rs & outs & pp & HL & Hok & _ & _).
+  destruct (steps_loop_ok _ _ _ _ _ _ _ HL Hok) as (known' & r & deps & p & _ & HStep & _).
+  apply load_step_step_inv in HStep. destruct HStep as (_ & keys & Htrees & Hmem & _).
+  destruct (Htrees t Ht) as (S' & HS' & Hincl). rewrite HS in HS'. inversion HS'; subst S'.
+  assert (Hin : In None (needed_steps keys)).
+  { eapply needed_steps_incl; [exact Hincl|]. eapply needed_steps_in; eassumption. }
+  specialize (Hmem None Hin). discriminate Hmem.
+Qed.
+
+(* C14, second sentence, in one statement: for every Workflow whose expressions are CEL,
+   prepare_workflow returns, and if some step names (anywhere in any of its expressions) a
+   label that is not an earlier step - a later one, its own, an unknown one - the returned
+   Workflow is not ready and reconcile_workflow starts none of its steps *)
+Theorem bad_order_reported : forall steps pre st post t name,
+  Forall (fun st => trees_wf (step_trees st)) steps -> steps = pre ++ st :: post ->
+  In t (step_trees st) -> name_ok name = true -> occurs_steps_ref name t ->
+  ~ In name (map st_label pre) ->
+  exists w, prepare_workflow steps = Done w /\ pw_ready w <> COk /\ started_steps w = [].
+Proof.
+  intros steps pre st post t name Hw Hs Ht Hok Hocc Hnot.
+  destruct (prepare_workflow_total steps Hw) as (w & H). exists w. split; [exact H|].
+  assert (Hr : pw_ready w <> COk) by (eapply bad_order_rejected; eassumption).
+  split; [exact Hr|now apply not_ready_runs_nothing].
+Qed.
+
+(* the inputs that raised TypeError before 2f140bc *)
+Definition tree_stepsX_foo : node :=
+  ch 0 7 (N "member_dot" [N "member" [N "primary" [N "ident" [Tok "IDENT" "stepsX"]]]; Tok "IDENT" "foo"]).
+Definition tree_steps_dot_a : node :=
+  ch 0 7 (N "member_index" [steps_member; lit_expr "STRING_LIT" "'.a'"]).
+
+Definition one_step (t : node) : list step_spec :=
+  [{| st_label := "aaa";
+      st_ref := Some {| rf_kind := "ValueFunction"; rf_name := "f"; rf_cache := CHealthy |};
+      st_switch := None; st_skip_if := FNone; st_for_each := FENone;
+      st_inputs := FExpr t; st_state := FNone |}].
+
+Lemma nameless_examples :
+  cel_expr_wf tree_stepsX_foo = true /\ cel_expr_wf tree_steps_dot_a = true /\
+  extract tree_stepsX_foo = Done ["stepsX.foo"] /\ steps_name "stepsX.foo" = Some None /\
+  extract tree_steps_dot_a = Done ["steps..a"] /\ steps_name "steps..a" = Some None /\
+  (exists w, prepare_workflow (one_step tree_stepsX_foo) = Done w /\ pw_ready w = CPermFail /\
+             pw_steps w = [SErr "aaa" CPermFail] /\ started_steps w = []) /\
+  (exists w, prepare_workflow (one_step tree_steps_dot_a) = Done w /\ pw_ready w = CPermFail /\
+             pw_steps w = [SErr "aaa" CPermFail] /\ started_steps w = []).
+Proof.
+  repeat split; try (vm_compute; reflexivity); eexists; vm_compute; repeat split; reflexivity.
 Qed.
